@@ -2,6 +2,7 @@ package main
 
 import (
 	"bytes"
+	"crypto/aes"
 	"fmt"
 )
 
@@ -205,7 +206,7 @@ func streamAead(c *ctx) {
 	// the limit belongs to the 13-octet-nonce algorithms only: with a 7-octet nonce (L = 8) longer plaintexts are sealed
 	// and opened (the reference comparison at these lengths is in the thorough tier)
 	for _, alg := range []int{12, 13, 32, 33} {
-		for _, pl := range []int{65535, 65536, 70000} {
+		for _, pl := range []int{0, 1, 17, 65535, 65536, 70000} {
 			e, _ := realEncryptor(alg, make([]byte, symKeySize[alg]))
 			pt := genBytes(uint64(pl), pl)
 			var ct, back []byte
@@ -218,6 +219,15 @@ func streamAead(c *ctx) {
 			})
 			c.eval()
 			c.nontriv(fmt.Sprintf("no-limit|%d|%d", alg, pl))
+			// an independent RFC 3610 computation (harness/aead.go refCCM: the generic construction over crypto/aes, which
+			// agrees with the proved Coq reference on the short cases above)
+			if want := refCCM(make([]byte, symKeySize[alg]), make([]byte, 7), pt, []byte("aad"), rfcAeadTag[alg]); err == nil && !bytes.Equal(ct, want) {
+				diff := 0
+				for diff < len(ct) && diff < len(want) && ct[diff] == want[diff] {
+					diff++
+				}
+				c.fail(failure{Op: "aead", What: "ciphertext differs from RFC 3610 (7-octet nonce, L = 8)", Input: fmt.Sprintf("alg=%d key=00.. nonce=00.. aad=616164 plaintext=genBytes(%d, %d)", alg, pl, pl), Observed: fmt.Sprintf("first difference at octet %d of %d", diff, len(ct)), Expected: "the RFC 3610 ciphertext", Theorem: "C12_ccm_is_rfc3610"})
+			}
 			if p || err != nil || derr != nil || !bytes.Equal(back, pt) || len(ct) != pl+rfcAeadTag[alg] {
 				c.fail(failure{Op: "aead", What: "a plaintext beyond 65535 octets under a 7-octet-nonce CCM algorithm is not sealed and opened", Input: fmt.Sprintf("alg=%d pt=%d", alg, pl), Observed: fmt.Sprintf("panic=%v %s err=%v/%v ct=%d", p, pm, err, derr, len(ct)), Expected: "ciphertext of plaintext + tag length, opened to the plaintext", Theorem: "C12_ccm_limit"})
 			}
@@ -234,4 +244,71 @@ func classLen(n int) int {
 	default:
 		return 100
 	}
+}
+
+// refCCM: RFC 3610 CCM over AES, written from the RFC (B_0, the encoded length of a, CBC-MAC, CTR with A_i), for any
+// nonce length 7..13 and tag length M.
+func refCCM(k, nonce, pt, aad []byte, M int) []byte {
+	blk, err := aes.NewCipher(k)
+	if err != nil {
+		return nil
+	}
+	L := 15 - len(nonce)
+	b0 := make([]byte, 16)
+	b0[0] = byte((M-2)/2)<<3 | byte(L-1)
+	if len(aad) > 0 {
+		b0[0] |= 0x40
+	}
+	copy(b0[1:], nonce)
+	ln := uint64(len(pt))
+	for i := 0; i < L; i++ {
+		b0[15-i] = byte(ln >> (8 * uint(i)))
+	}
+	var mac [16]byte
+	blk.Encrypt(mac[:], b0)
+	feed := func(data []byte) {
+		for len(data) > 0 {
+			var b [16]byte
+			n := copy(b[:], data)
+			data = data[n:]
+			for i := range b {
+				mac[i] ^= b[i]
+			}
+			blk.Encrypt(mac[:], mac[:])
+		}
+	}
+	if len(aad) > 0 {
+		var hdr []byte
+		switch {
+		case len(aad) < 0xff00:
+			hdr = []byte{byte(len(aad) >> 8), byte(len(aad))}
+		case uint64(len(aad)) <= 0xffffffff:
+			hdr = []byte{0xff, 0xfe, byte(len(aad) >> 24), byte(len(aad) >> 16), byte(len(aad) >> 8), byte(len(aad))}
+		}
+		feed(append(hdr, aad...))
+	}
+	feed(pt)
+	ctr := func(i uint64) []byte {
+		a := make([]byte, 16)
+		a[0] = byte(L - 1)
+		copy(a[1:], nonce)
+		for j := 0; j < L; j++ {
+			a[15-j] = byte(i >> (8 * uint(j)))
+		}
+		s := make([]byte, 16)
+		blk.Encrypt(s, a)
+		return s
+	}
+	out := make([]byte, 0, len(pt)+M)
+	for i := 0; i*16 < len(pt); i++ {
+		s := ctr(uint64(i + 1))
+		for j := 0; j < 16 && i*16+j < len(pt); j++ {
+			out = append(out, pt[i*16+j]^s[j])
+		}
+	}
+	s0 := ctr(0)
+	for j := 0; j < M; j++ {
+		out = append(out, mac[j]^s0[j])
+	}
+	return out
 }
